@@ -141,6 +141,8 @@ class Builder(Client):
         if nu == 0:
             return None
         k = r.choice(kinds)
+        if "herald" in kinds and r.random() < self.cfg.get("herald_boost", 0):
+            k = "herald"
         if k == "bs":
             m1, m2 = r.sample(range(nu), 2)
             o = {"op": "bs", "c": cid, "m1": m1, "r": self.value("r")}
@@ -186,7 +188,10 @@ class Builder(Client):
         n = r.choice([0, 0, 1, 1, 2])
         n = max(0, min(n, budget))
         o = {"op": "herald", "c": cid, "n": n, "i": i}
-        if r.random() < 0.5 or i not in free_o:
+        others = [m for m in free_o if m != i]
+        if others and r.random() < self.cfg.get("p_herald_in_ne_out", 0.3):
+            o["o"] = r.choice(others)
+        elif r.random() < 0.3 or i not in free_o:
             o["o"] = r.choice(free_o)
         return o
 
@@ -235,7 +240,13 @@ class Composer(Client):
                 continue
             # bias: prefer heralded subs, they create the interesting state
             hs = [s for s in subs if w.pool["c"][s].heralds["input"]]
-            sid = self.pick(hs) if hs and r.random() < 0.6 else self.pick(subs)
+            hh = [s for s in hs
+                  if len(w.pool["c"][s].heralds["input"]) >= 2
+                  or list(w.pool["c"][s].heralds["input"]) != list(w.pool["c"][s].heralds["output"])]
+            if hh and r.random() < 0.35:
+                sid = self.pick(hh)
+            else:
+                sid = self.pick(hs) if hs and r.random() < 0.6 else self.pick(subs)
             s = w.pool["c"][sid]
             o = {"op": "add", "parent": pid, "sub": sid,
                  "mode": r.randint(0, nu - s.input_modes)}
